@@ -637,12 +637,17 @@ impl Property for C02 {
         let n = tbl.len() as u64 + NARY;
         let idx = k % n;
         let regime = if rng.chance(3, 4) { Regime::D } else { Regime::R };
-        let np = 1 + rng.usize_below(5);
+        let long = k % 31 == 5;
+        let np = if long { 8 + rng.usize_below(40) } else { 1 + rng.usize_below(5) };
         let mut f = FnCfg::new(id_pool(rng, np, true), regime);
         f.dup_positions = false;
         f.allow_unset = false;
         f.max_degree = 3;
-        f.max_terms = if k % 31 == 5 { 24 } else if rng.bool() { 4 } else { 8 };
+        f.max_terms = if long { 90 } else if rng.bool() { 4 } else { 8 };
+        if long {
+            // keep products of two long operands affordable for the exact model
+            f.max_degree = 2;
+        }
         let cfg = Cfg { f };
         if idx >= tbl.len() as u64 {
             return nary(idx - tbl.len() as u64, rng, &cfg, mon);
@@ -699,7 +704,16 @@ impl Property for C02 {
                 }
                 mon.facet(if exact_mode { "judged:exact" } else { "judged:bounded" });
                 let one = qi(1);
-                let drop_scale = if op == "mul" { abs_sum(&ex.lhs_stored_abs, &ex.rhs_stored_abs) } else { one };
+                // a plain number is multiplied into the stored coefficients in place: no conversion, no
+                // merging, hence no epsilon dropping at all (a tiny non-zero scalar is not a zero scalar)
+                let scalar_mul = op == "mul" && (lk == "f64" || rk == "f64");
+                let drop_scale = if scalar_mul {
+                    Q::zero()
+                } else if op == "mul" {
+                    abs_sum(&ex.lhs_stored_abs, &ex.rhs_stored_abs)
+                } else {
+                    one
+                };
                 judge(mon, op, &format!("{lk},{rk}"), &expected, &abs_expected, out, exact_mode, steps, &drop_scale, &ctx);
                 check_iterator(mon, out, &format!("{op}:{lk},{rk}"), &ctx);
             }
